@@ -265,7 +265,7 @@ class Rig(object):
             if not same:
                 if kind == "mono_retro" and op in ("repeat", "extend") and isinstance(got, tuple):
                     # two known mechanisms, told apart by which start the implementation ended up with
-                    if moved_back and got[0] == abs(unshifted) and abs(unshifted) != want[0]:
+                    if moved_back and got[0] == abs(unshifted) and abs(unshifted) not in (want[0], abs(shifted)):
                         ctx.fail(KF_STALE, "MonoTimer(retro=True).%s as the first operation after a backward clock jump "
                                  "uses the %s from before the compensation shift" % (
                                      op, "stop" if op == "repeat" else "start"),
@@ -378,6 +378,7 @@ def gen_history(rng, kind, n):
 
 
 MOVES = (Fraction(0), Fraction(1), Fraction(2), Fraction(-1), Fraction(-5))
+MOVES_QUICK = (Fraction(0), Fraction(1), Fraction(-1), Fraction(-5))
 OPS = (("elapsed", ()), ("remaining", ()), ("expired", ()), ("restart", (None, None)), ("restart", (None, Fraction(1))),
        ("repeat", ()), ("extend", (None,)), ("extend", (Fraction(-1, 2),)))
 
@@ -387,7 +388,7 @@ def worker(ctx, job):
     try:
         if job["kind"] == "exhaustive":
             import itertools
-            alphabet = [(mv, op, args) for mv in MOVES for op, args in OPS]
+            alphabet = [(mv, op, args) for mv in (MOVES_QUICK if ctx.quick else MOVES) for op, args in OPS]
             for kind in job["kinds"]:
                 for base in (Fraction(3),):
                     for seq in itertools.product(alphabet[job["part"]::job["parts"]], alphabet, alphabet):
@@ -419,8 +420,8 @@ def run(ctx):
     jobs += [{"kind": "random", "n": per} for _ in range(n // per)]
     ctx.shard(jobs, timeout=ctx.pick(90, 340))
     ctx.exhaustive = True
-    ctx.extra["exhaustive_scope"] = "all 3-step histories over 5 clock moves x 8 operations for each of the 5 timer kinds"
-    ctx.floor("exhaustive_histories", 5 * 40 ** 3)
+    ctx.extra["exhaustive_scope"] = "all 3-step histories over %d clock moves x 8 operations for each of the 5 timer kinds" % ctx.pick(4, 5)
+    ctx.floor("exhaustive_histories", 5 * ctx.pick(32, 40) ** 3)
     ctx.floor("clock_attached", len(jobs))
     ctx.floor("events", n * 10)
     for k in KINDS:
